@@ -41,6 +41,18 @@ Theorem C16_validate_sound :
 Proof. exact (validate_sound gen_cfg gen_cfg_ok). Qed.
 Print Assumptions C16_validate_sound.
 
+(* Every action of an UPDATE's action list is guarded — in any position, however often a kind
+   is repeated: engine-owned keys in no block of any action, no payload field in any SET FIELDS
+   action and no structural action under any record typing of the target. *)
+Theorem C16_every_update_action_guarded :
+  forall ex cs u a k,
+  validate_command gen_cfg (CKml ex cs) = VOk -> In (Update u) cs -> In a (up_actions u) -> TargetTyped u k ->
+  (forall f, In f (action_written a) -> ~ In f spec_engine_owned) /\
+  (forall asg f, a = USetFields asg -> In f (keys asg) -> ~ In f (spec_payload k)) /\
+  (k <> KConcept -> ~ is_structural_action a).
+Proof. exact (every_action_guarded gen_cfg gen_cfg_ok). Qed.
+Print Assumptions C16_every_update_action_guarded.
+
 (* the same for any constant tables that cover the property's sets *)
 Theorem C16_validate_sound_any_tables :
   forall cfg, cfg_ok cfg -> forall c : command, validate_command cfg c = VOk -> Safe c.
@@ -61,7 +73,8 @@ Print Assumptions C16_accepted_trees_pass_safe_b.
    tables): which fields of which MutationClause variant validate_clause and
    collect_clause_handles read, which variants carry a WHERE / claim a handle, which table
    guards which kind, the exact-membership test, that parse_kip / validate_command run
-   the tree validator, and that the tree validator names nothing of the payloads the Coq AST
+   the tree validator, that guard_update applies its payload and structural guards inside a walk
+   over every UPDATE action and selects no single action out of the list, and that the tree validator names nothing of the payloads the Coq AST
    keeps opaque (FILTER expressions, AsOf, hop ranges, numbers, KipValue objects) — if it ever
    looks inside one, this lemma breaks and the AST has to be widened. *)
 Theorem C16_dispatch_as_modelled :
@@ -105,6 +118,8 @@ Theorem C16_dispatch_as_modelled :
   Gen_Kip.validate_command_kml_runs_validate_plan = true /\
   Gen_Kip.validate_command_export_runs_exact_patterns = true /\
   Gen_Kip.parse_kip_runs_validate_command = true /\
+  Gen_Kip.guard_update_per_action = true /\
+  Gen_Kip.guard_update_action_selectors = [] /\
   Gen_Kip.opaque_payloads_inspected = [] /\
   Gen_Kip.filter_binds_nothing = true /\
   map (fun f => (f, gen_arity f)) [FAdd; FMul; FClamp; FCoalesce] = [(FAdd, 2); (FMul, 2); (FClamp, 3); (FCoalesce, 2)].
@@ -240,6 +255,24 @@ Example C16_rejects_payload_rewrite :
     (upd (WCons (WConcept "a" (idm "C-1")) (WCons (WUnion (WCons (WEvidence "a" (idm "E-1")) WNil)) WNil))
          [USetStructural [mkEdge (SymName "source") (MParam "e") None]])
     = VErr InvalidSyntax.
+Proof. repeat split; vm_compute; reflexivity. Qed.
+
+(* a second SET FIELDS block, a payload field after an ordinary one, a structural action last:
+   the offending action is found wherever it stands *)
+Example C16_rejects_in_every_position :
+  let ws := WCons (WAssertion "a" (idm "A-1")) WNil in
+  validate_command gen_cfg (upd ws [USetFields [("note", MVal (KStr "a"))]; USetFields [("confidence", MVal (KNum "0.1"))]])
+    = VErr InvalidSyntax /\
+  validate_command gen_cfg (upd ws [USetAttributes [("x", MVal (KNum "1"))]; UUnsetAttributes ["y"];
+                                    USetFields [("note", MVal (KStr "a")); ("stance", MVal (KStr "oppose"))]])
+    = VErr InvalidSyntax /\
+  validate_command gen_cfg (upd ws [USetFields [("note", MVal (KStr "a"))]; USetFacet (mkFA (SymName "F") [("m", MVal (KNum "1"))]);
+                                    UUnsetStructural [mkRemoval (SymName "evidence") (MParam "e")]])
+    = VErr InvalidSyntax /\
+  validate_command gen_cfg (upd ws [USetFields [("note", MVal (KStr "a"))]; USetFields [("note2", MVal (KStr "b"))];
+                                    USetFacet (mkFA (SymName "F") [("governance", MVal (KNum "1"))])])
+    = VErr InvalidSyntax /\
+  validate_command gen_cfg (upd ws [USetFields [("note", MVal (KStr "a"))]; USetFields [("note2", MVal (KStr "b"))]]) = VOk.
 Proof. repeat split; vm_compute; reflexivity. Qed.
 
 Example C16_rejects_each_guard :
